@@ -284,6 +284,9 @@ METRIC_SOURCE = {  # cost metric class -> the circuit attribute its definition n
 }
 
 
+EMITTER_WIRE_METRICS = ("CircuitMaxEmitDepth", "CircuitMaxEmitResetDepth", "CircuitMaxEmitEffDepth")
+
+
 def rule_metric_source(ctx: Ctx) -> None:
     repo = ctx.repo
     m = repo.module(METRICS)
@@ -308,6 +311,72 @@ def rule_metric_source(ctx: Ctx) -> None:
         else:
             ctx.fail("metric.source", m, ev, f"{cname}.evaluate must return its penalty function applied to `{want}`", func=f"{cname}.evaluate",
                      construct=f"{cname}: source {want}")
+    # the emitter-depth metrics count gates on each emitter's own wire (reg_gate_history), on the unwrapped, identity-free copy
+    for cname in EMITTER_WIRE_METRICS:
+        ci = repo.cls(cname, METRICS)
+        ev = ci.methods().get("evaluate")
+        if ev is None:
+            raise AnalysisError(f"{cname}.evaluate missing")
+        ctx.touch(m, ev)
+        pen = [c for c in calls_in(ev) if isinstance(c.func, ast.Attribute) and "penalty" in c.func.attr and norm(c.func.value) == "self" and c.args]
+        if len(pen) != 1:
+            raise AnalysisError(f"{cname}.evaluate: penalty call not found")
+        contrib = {}
+        for n in ast.walk(ev):
+            if isinstance(n, ast.Assign):
+                for t in n.targets:
+                    b = t
+                    while isinstance(b, ast.Subscript):
+                        b = b.value
+                    if isinstance(b, ast.Name):
+                        contrib.setdefault(b.id, []).append(n.value)
+            if isinstance(n, ast.Call) and call_attr(n) in ("append", "extend") and isinstance(n.func.value, ast.Name) and n.args:
+                contrib.setdefault(n.func.value.id, []).append(n.args[0])
+            if isinstance(n, ast.For):
+                for t in ast.walk(n.target):
+                    if isinstance(t, ast.Name):
+                        contrib.setdefault(t.id, []).append(n.iter)
+        seen, todo, exprs = set(), [pen[0].args[0]], []
+        while todo:
+            e = todo.pop()
+            exprs.append(e)
+            for x in ast.walk(e):
+                if isinstance(x, ast.Name) and x.id not in seen:
+                    seen.add(x.id)
+                    todo.extend(contrib.get(x.id, []))
+        hist = [c for e in exprs for c in ast.walk(e) if isinstance(c, ast.Call) and call_attr(c) == "reg_gate_history"]
+        other = sorted({call_attr(c) for e in exprs for c in ast.walk(e) if isinstance(c, ast.Call) and call_attr(c) in
+                        ("calculate_reg_depth", "calculate_all_reg_depth", "sequence", "depth")})
+        per_emitter = False
+        for c in hist:
+            reg = get_kw(c, "reg") or (c.args[0] if c.args else None)
+            rt = get_kw(c, "reg_type") or (c.args[1] if len(c.args) > 1 else None)
+            if isinstance(reg, ast.Name) and any(isinstance(it, ast.Call) and call_name(it) == "range" and it.args and norm(it.args[-1]).endswith(".n_emitters")
+                                                 for it in contrib.get(reg.id, [])) and (rt is None or (isinstance(rt, ast.Constant) and rt.value == "e")):
+                per_emitter = True
+        has_max = any(isinstance(c, ast.Call) and call_name(c) in ("max", "np.max") for e in exprs for c in ast.walk(e))
+        prep = [call_attr(c) for c in calls_in(ev) if call_attr(c) in ("unwrap_nodes", "remove_identity")]
+        if hist and per_emitter and has_max and not other:
+            ctx.ok("metric.source", m, hist[0], what=f"{cname}: max over emitters of a count on the emitter's own gate history")
+        else:
+            why = (f"uses {other} (the DAG level of a node also counts gates on other wires that reach it through two-qubit gates or a shared classical bit)" if other
+                   else "does not read reg_gate_history(reg=e) for every e in range(n_emitters)" if not (hist and per_emitter) else "does not take the maximum over emitters")
+            ctx.fail("metric.source", m, pen[0], f"{cname}.evaluate {why}; the metric is defined on the gates of each emitter's own wire",
+                     func=f"{cname}.evaluate", construct=f"{cname}: per-emitter gate history source")
+        if prep[:2] == ["unwrap_nodes", "remove_identity"]:
+            ctx.ok("metric.source", m, ev, what=f"{cname}: evaluated on the unwrapped, identity-free copy")
+        else:
+            ctx.fail("metric.source", m, ev, f"{cname}.evaluate must unwrap the gate wrappers and then drop identities before counting (found {prep})",
+                     func=f"{cname}.evaluate", construct=f"{cname}: unwrap/remove_identity preparation")
+        if cname == "CircuitMaxEmitDepth":
+            # len(history) - 2: the Input and Output nodes of the wire are not gates
+            lens = [e for ex in exprs for e in ast.walk(ex) if isinstance(e, ast.BinOp) and isinstance(e.op, ast.Sub) and isinstance(e.left, ast.Call)
+                    and call_name(e.left) == "len" and any(isinstance(c, ast.Call) and call_attr(c) == "reg_gate_history" for c in ast.walk(e.left))]
+            if lens and all(isinstance(e.right, ast.Constant) and e.right.value == 2 for e in lens):
+                ctx.ok("metric.source", m, lens[0], what="CircuitMaxEmitDepth: history length minus the Input and Output nodes")
+            elif hist:
+                ctx.fail("metric.source", m, pen[0], "CircuitMaxEmitDepth must count len(history) - 2 (the wire's Input and Output nodes are not gates)",
+                         func="CircuitMaxEmitDepth.evaluate", construct="CircuitMaxEmitDepth: history length offset")
     # every cost metric returns the value it logs
     mb = repo.cls("MetricBase", METRICS)
     for ci in repo.subclasses(mb, strict=True):
